@@ -48,6 +48,9 @@ type backendIn struct {
 	Cancel     string   `json:"cancel"`                // never | before | during | after
 	MaxReq     int      `json:"maxreq"`                // max concurrent requests of the backend
 	Extra      []string `json:"extra"`                 // further backends of the same flusher: null | stdout
+	// loop cases (one aggregator, one series => one batch): the answer to attempt j of the batch is
+	// Script[min(j, len-1)]: ok | partial | 500 | 400 | reset | 429 | 429:<Retry-After seconds>
+	Script []string `json:"script,omitempty"`
 }
 
 var tokenRe = regexp.MustCompile(`f(\d+)a(\d+)x(\d+)(ok|bad)`)
@@ -65,6 +68,9 @@ type bodyRec struct {
 	bad        bool
 	attempts   int
 	acked      bool
+	refused    bool     // some attempt was not answered with a success
+	acts       []string // loop cases: the answer given to every attempt ...
+	times      []int64  // ... and the reading of the flush context's mock clock (ns since its start)
 }
 
 type transportScript struct {
@@ -74,6 +80,42 @@ type transportScript struct {
 	held       int
 	release    chan struct{}
 	retryAfter int
+	script     []string
+	now        func() int64
+	partialOK  bool // a 200 whose body reports rejected data points is a success (all but otlp)
+	// loop cases: what every attempt (= every RoundTrip call of the backend's http.Client) got, and the
+	// reading of the flush context's mock clock when it started
+	rtActs  []string
+	rtTimes []int64
+}
+
+// recRT records the attempts of a post loop where the loop makes them: at the http.Client's transport
+// (an attempt that fails before it reaches the server is an attempt all the same)
+type recRT struct {
+	inner http.RoundTripper
+	ts    *transportScript
+}
+
+func (r *recRT) RoundTrip(req *http.Request) (*http.Response, error) {
+	ts := r.ts
+	ts.mu.Lock()
+	rec := len(ts.script) > 0 && ts.mode != "ok"
+	t := ts.now()
+	ts.mu.Unlock()
+	resp, err := r.inner.RoundTrip(req)
+	if rec {
+		act := "err"
+		if err == nil {
+			act = resp.Header.Get("X-C16-Act")
+		}
+		ts.mu.Lock()
+		if len(ts.rtActs) < 64 {
+			ts.rtActs = append(ts.rtActs, act)
+			ts.rtTimes = append(ts.rtTimes, t)
+		}
+		ts.mu.Unlock()
+	}
+	return resp, err
 }
 
 func (ts *transportScript) setMode(m string) {
@@ -101,6 +143,17 @@ func (ts *transportScript) decide(body string) (string, *bodyRec) {
 		ts.bodies[key] = rec
 	}
 	rec.attempts++
+	if len(ts.script) > 0 && ts.mode != "ok" {
+		act := ts.script[min(rec.attempts-1, len(ts.script)-1)]
+		if len(rec.acts) < 64 {
+			rec.acts = append(rec.acts, act)
+			rec.times = append(rec.times, ts.now())
+		}
+		if act == "ok" || (act == "partial" && ts.partialOK) {
+			rec.acked = true
+		}
+		return act, rec
+	}
 	switch ts.mode {
 	case "hold":
 		ts.held++
@@ -145,14 +198,26 @@ func (ts *transportScript) counts(flush, agg int) (n, fails int) {
 	return
 }
 
-// takeAnon returns the number of never-acknowledged bodies that carry no token (otlp's empty
-// trailing batch) and forgets them (their bodies are identical from flush to flush)
+// logs returns the attempt logs of the batches attributed to (flush, agg)
+func (ts *transportScript) logs(flush, agg int) (out []*bodyRec) {
+	ts.mu.Lock()
+	defer ts.mu.Unlock()
+	for _, r := range ts.bodies {
+		if r.flush == flush && r.agg == agg && len(r.acts) > 0 {
+			out = append(out, r)
+		}
+	}
+	return
+}
+
+// takeAnon returns the number of bodies without a token (otlp's empty trailing batch; identical for
+// every request and flush, so not attributable) some attempt of which was refused, and forgets them
 func (ts *transportScript) takeAnon() (anon int) {
 	ts.mu.Lock()
 	defer ts.mu.Unlock()
 	for k, r := range ts.bodies {
 		if r.flush == -1 {
-			if !r.acked {
+			if r.refused {
 				anon++
 			}
 			delete(ts.bodies, k)
@@ -163,8 +228,24 @@ func (ts *transportScript) takeAnon() (anon int) {
 
 func (ts *transportScript) handler(w http.ResponseWriter, r *http.Request) {
 	b, _ := io.ReadAll(r.Body)
-	act, _ := ts.decide(string(b))
+	act, rec := ts.decide(string(b))
+	if act != "ok" {
+		ts.mu.Lock()
+		rec.refused = true
+		ts.mu.Unlock()
+	}
+	w.Header().Set("X-C16-Act", act)
+	if strings.HasPrefix(act, "429:") {
+		w.Header().Set("Retry-After", act[4:])
+		w.WriteHeader(http.StatusTooManyRequests)
+		return
+	}
 	switch act {
+	case "partial":
+		// ExportMetricsServiceResponse{partial_success{rejected_data_points: 3, error_message: "x"}}; the
+		// other backends only look at the status
+		w.WriteHeader(http.StatusOK)
+		w.Write([]byte{0x0a, 0x05, 0x08, 0x03, 0x12, 0x01, 'x'})
 	case "hold":
 		select {
 		case <-ts.release:
@@ -176,7 +257,9 @@ func (ts *transportScript) handler(w http.ResponseWriter, r *http.Request) {
 	case "400":
 		w.WriteHeader(http.StatusBadRequest)
 	case "429":
-		w.Header().Set("Retry-After", strconv.Itoa(max(1, ts.retryAfter)))
+		if len(ts.script) == 0 {
+			w.Header().Set("Retry-After", strconv.Itoa(max(1, ts.retryAfter)))
+		}
 		w.WriteHeader(http.StatusTooManyRequests)
 	case "reset":
 		if hj, ok := w.(http.Hijacker); ok {
@@ -446,7 +529,8 @@ func runBackend(in input) hlib.Case {
 	fr := &flushRun{base: map[*gostatsd.MetricMap]int{}, aggOf: map[*gostatsd.MetricMap]int{}}
 	logger := logrus.New()
 	logger.SetOutput(io.Discard)
-	ts := &transportScript{mode: bi.Mode, bodies: map[string]*bodyRec{}, release: make(chan struct{}), retryAfter: bi.RetryAfter}
+	ts := &transportScript{mode: bi.Mode, bodies: map[string]*bodyRec{}, release: make(chan struct{}), retryAfter: bi.RetryAfter, script: bi.Script,
+		now: func() int64 { return 0 }, partialOK: bi.Backend != "otlp"}
 	var srv *httptest.Server
 	var sock *sockServer
 	runCtx, cancelRun := context.WithCancel(context.Background())
@@ -463,6 +547,13 @@ func runBackend(in input) hlib.Case {
 	}
 	v := viper.New()
 	pool := transport.NewTransportPool(logger, v)
+	if hc, e := pool.Get("default"); e == nil && len(bi.Script) > 0 {
+		inner := hc.Client.Transport
+		if inner == nil {
+			inner = http.DefaultTransport
+		}
+		hc.Client.Transport = &recRT{inner: inner, ts: ts}
+	}
 	var be gostatsd.Backend
 	var err error
 	if isHTTP(bi.Backend) {
@@ -510,7 +601,11 @@ func runBackend(in input) hlib.Case {
 		v.Set("otlp.max_retries", 3)
 		v.Set("otlp.max_request_elapsed_time", window)
 		v.Set("otlp.compress_payload", false)
-		v.Set("otlp.metrics_per_batch", 1)
+		if len(bi.Script) > 0 {
+			v.Set("otlp.metrics_per_batch", 1000) // one batch (no empty trailing one)
+		} else {
+			v.Set("otlp.metrics_per_batch", 1)
+		}
 		be, err = otlp.NewClientFromViper(v, logger, pool)
 	case "cloudwatch":
 		be = cloudwatch.VerifNewClientC16("ns", gostatsd.TimerSubtypes{}, logger, func(ctx context.Context, names []string) error {
@@ -603,7 +698,11 @@ func runBackend(in input) hlib.Case {
 			proc.maps = append(proc.maps, mm)
 		}
 		fr.mu.Unlock()
-		mock := clock.NewMock(time.Unix(1700000000, 0))
+		base := time.Unix(1700000000, 0)
+		mock := clock.NewMock(base)
+		ts.mu.Lock()
+		ts.now = func() int64 { return int64(mock.Now().Sub(base)) }
+		ts.mu.Unlock()
 		ctx, cancel := context.WithCancel(clock.Context(context.Background(), mock))
 		defer cancel()
 		if cancelMode == "before" {
@@ -631,7 +730,16 @@ func runBackend(in input) hlib.Case {
 				return true
 			case <-tick.C:
 			}
-			mock.Add(time.Second) // retry windows and back-off timers run on this clock
+			// retry windows and back-off timers run on this clock
+			if len(bi.Script) > 0 {
+				// loop cases: time moves only when the (single) post loop sleeps, and then exactly to the
+				// end of the sleep: the clock readings at the attempts determine sleeps and elapsed time
+				if mock.Len() > 0 {
+					mock.AddNext()
+				}
+			} else {
+				mock.Add(time.Second)
+			}
 			el := time.Since(t0)
 			if cancelMode == "during" && !cancelled &&
 				(ts.heldCount() > 0 || (!isHTTP(bi.Backend) && bi.Backend != "cloudwatch" && el > 3*time.Millisecond) || el > 40*time.Millisecond) {
@@ -704,6 +812,7 @@ func runBackend(in input) hlib.Case {
 		n, fails := 0, 0
 		cancelledReq := rq.flush == 0 && (bi.Cancel == "before" || bi.Cancel == "during") && rq.bidx == 0
 		expect := "None"
+		lenient := false
 		var cbsCoq []string
 		for _, es := range rq.cbs {
 			cbsCoq = append(cbsCoq, hlib.List(es))
@@ -733,8 +842,9 @@ func runBackend(in input) hlib.Case {
 		case rq.backend == "otlp":
 			kind = "KOtlp"
 			n, fails = ts.counts(rq.flush, rq.agg)
-			if anon[rq.flush] > 0 { // the empty trailing batch of every otlp request was refused as well
-				n, fails = n+1, fails+1
+			if anon[rq.flush] > 0 {
+				// an empty trailing batch was refused at least once, whose we cannot tell: unconstrained
+				lenient = true
 			}
 		case rq.backend == "cloudwatch":
 			kind = "KCloudwatch"
@@ -765,10 +875,62 @@ func runBackend(in input) hlib.Case {
 				fr.mons = append(fr.mons, fmt.Sprintf("request (flush %d, aggregator %d, backend %s) was cancelled (%s) with batches outstanding but its callback carries no error", rq.flush, rq.agg, rq.backend, bi.Cancel))
 			}
 		}
-		reqs = append(reqs, hlib.App("RO", kind, hlib.Nat(n), hlib.Nat(fails), hlib.Bool(cancelledReq), expect, hlib.List(cbsCoq)))
+		reqs = append(reqs, hlib.App("RO", kind, hlib.Nat(n), hlib.Nat(fails), hlib.Bool(cancelledReq || lenient), expect, hlib.List(cbsCoq)))
 		obs = append(obs, fmt.Sprintf("f%d a%d %s n=%d fails=%d cbs=%v", rq.flush, rq.agg, rq.backend, n, fails, rq.raw))
 	}
-	c.Coq = hlib.App("BackendFlush", hlib.List(reqs), hlib.List(fr.trace))
+	// ---- post loops: single-batch, never cancelled requests of the scripted flush
+	var loops []string
+	if len(bi.Script) > 0 && isHTTP(bi.Backend) && bi.Cancel != "before" && bi.Cancel != "during" {
+		for _, rq := range fr.reqs {
+			if rq.flush != 0 || rq.bidx != 0 || len(rq.cbs) != 1 || (len(rq.cbs[0]) != 1 && rq.backend != "otlp") {
+				continue
+			}
+			res := "ENil" // otlp hands over an empty list on success, the components of the error otherwise
+			if len(rq.cbs[0]) >= 1 {
+				res = rq.cbs[0][0]
+			}
+			if len(ts.logs(0, rq.agg)) > 1 {
+				continue
+			}
+			ts.mu.Lock()
+			acts, tms := append([]string(nil), ts.rtActs...), append([]int64(nil), ts.rtTimes...)
+			ts.mu.Unlock()
+			var answers, times []string
+			for j, act := range acts {
+				switch {
+				case act == "ok":
+					answers = append(answers, "A2xx")
+				case act == "partial":
+					answers = append(answers, "APartial")
+				case act == "429":
+					answers = append(answers, "(A429 None)")
+				case strings.HasPrefix(act, "429:"):
+					k, _ := strconv.Atoi(act[4:])
+					answers = append(answers, hlib.App("A429", hlib.Option(hlib.Z(int64(k)*int64(time.Second)), true)))
+				default:
+					answers = append(answers, "ABad")
+				}
+				times = append(times, hlib.Z(tms[j]))
+			}
+			var b string
+			switch rq.backend {
+			case "datadog":
+				b = "Datadog"
+			case "influxdb":
+				b = "Influxdb"
+			case "newrelic":
+				b = hlib.App("Newrelic", "true", hlib.Z(int64(window)))
+			case "otlp":
+				b = hlib.App("Otlp", hlib.Nat(3))
+			}
+			loops = append(loops, hlib.App("LO", b, hlib.Z(int64(window)), hlib.List(answers), hlib.List(times), res))
+			obs = append(obs, fmt.Sprintf("loop %s window=%v attempts=%v at=%v result=%v", rq.backend, window, acts, tms, rq.raw[0]))
+			if len(acts) >= 64 {
+				fr.mons = append(fr.mons, fmt.Sprintf("%s: more than 64 attempts for one batch within a retry window of %v", rq.backend, window))
+			}
+		}
+	}
+	c.Coq = hlib.App("BackendFlush", hlib.List(reqs), hlib.List(fr.trace), hlib.List(loops))
 	c.Obs = map[string]interface{}{"requests": obs, "trace": strings.Join(fr.human, " ")}
 	c.Monitors = append(c.Monitors, fr.mons...)
 	total := 0
@@ -776,7 +938,10 @@ func runBackend(in input) hlib.Case {
 		total += n
 	}
 	c.Nontrivial = total > 0 && (bi.Cancel != "never" || (bi.Mode != "ok" && bi.Mode != "up"))
-	if bi.Window > 0 && isHTTP(bi.Backend) && strings.HasPrefix(bi.Mode, "all") {
+	if len(bi.Script) > 0 {
+		c.Class = fmt.Sprintf("backend/%s/loop/%s", bi.Backend, bi.Cancel)
+		c.Nontrivial = len(bi.Script) > 1 || bi.Script[0] != "ok"
+	} else if bi.Window > 0 && isHTTP(bi.Backend) && strings.HasPrefix(bi.Mode, "all") {
 		c.Class = fmt.Sprintf("backend/%s/%s-window/%s", bi.Backend, bi.Mode, bi.Cancel)
 	}
 	return c
@@ -813,6 +978,22 @@ func genBackend(r *hlib.Rand, k int) *backendIn {
 		return in
 	}
 	k -= 2 * len(retrying) * len(persistent)
+	if k < 24 {
+		// post loops: one batch against a per-attempt answer script; the last answer repeats
+		in := &backendIn{Backend: retrying[k%len(retrying)], Mode: "script", MaxReq: 1 + r.Intn(2), Window: 1 + r.Intn(4),
+			Cancel: hlib.Pick(r, []string{"never", "never", "never", "after"}), Aggs: []int{1}, Bad: [][]int{nil}}
+		acts := []string{"500", "500", "400", "reset", "429", "429:1", "429:2", "429:5", "429:0"}
+		for j, n := 0, r.Intn(5); j < n; j++ {
+			in.Script = append(in.Script, hlib.Pick(r, acts))
+		}
+		last := hlib.Pick(r, []string{"ok", "ok", "ok", "partial", "500", "reset", "429:1", "429:3", "429"})
+		in.Script = append(in.Script, last)
+		if r.Chance(1, 3) {
+			in.Extra = []string{"null"}
+		}
+		return in
+	}
+	k -= 24
 	in := &backendIn{Backend: backendNames[k%len(backendNames)], MaxReq: 1 + r.Intn(4)}
 	naggs := hlib.Pick(r, []int{1, 1, 2, 3})
 	many := 5
